@@ -235,6 +235,25 @@ Theorem C16_reopened_logs_linearise ops r l :
        forall n p, In n (e_next e) -> In (n, p) (l_entries l) -> In p l1).
 Proof. intros W Hlen L OT. exact (ovalues_linearise ops r l W L Hlen OT). Qed.
 
+
+(* the main clause between any two replicas of such a history *)
+Theorem C16_bounded_join_keeps_newest_reopened ops r src l o size lu :
+  owf ops -> hist_bound ops < two63 ->
+  nth_error (s_logs (run ops)) r = Some l -> nth_error (s_logs (run ops)) src = Some o ->
+  l_id l = l_id o -> 0 <= size ->
+  join l o false (-1) = (lu, Ok tt) ->                     (* the unbounded merge is accepted *)
+  order_total lu ->
+  exists vu l',
+    values lu = Some vu /\
+    join l o false size = (l', Ok tt) /\
+    let keep := lastn (Z.to_nat size) (oslice vu) in
+    (forall k v, In (k, v) (l_entries l') <-> In v keep /\ e_hash v = k) /\
+    (forall k v, In (k, v) (l_heads l') <-> In v keep /\ e_hash v = k /\ ~ named_in keep k) /\
+    (forall n, In n (okeys (l_next l')) <-> named_in keep n) /\
+    NoDup (okeys (l_entries l')) /\
+    (Z.of_nat (length vu) <= size -> forall k v, In (k, v) (l_entries l') <-> In (k, v) (l_entries lu)).
+Proof. exact (obounded_join_keeps_newest ops r src l o size lu). Qed.
+
 From IpfsLog Require Import Model.ExampleHist Proofs.WfBool.
 Example C16_truncated_nonvacuous :
   pwf ex_hist_trunc /\ wfb ex_hist_trunc = false /\
@@ -283,4 +302,5 @@ Print Assumptions C16_nonvacuous.
 Print Assumptions C16_reopened_logs_are_logs.
 Print Assumptions C16_reopened_any_merge_any_bound_never_panics.
 Print Assumptions C16_reopened_logs_linearise.
+Print Assumptions C16_bounded_join_keeps_newest_reopened.
 Print Assumptions C16_reopened_nonvacuous.
